@@ -439,6 +439,16 @@ for _pid in ("C01", "C06", "C07", "C08", "C18", "C19"):
 # query decoders under C09's totality clause
 _add_kind("C19", "client", dict(PROPS["C07"]["kinds"]["client"]), "Run.EvalClient", ["XS.Lib.Bufio", "XS.Spec.ClientOps"])
 _add_kind("C09", "query", dict(PROPS["C14"]["kinds"]["query"]), "Run.EvalConfig")
+_add_kind("C12", "client", dict(PROPS["C07"]["kinds"]["client"]), "Run.EvalClient", ["XS.Lib.Bufio", "XS.Spec.ClientOps"])
+_add_kind("C11", "newpkt", dict(PROPS["C07"]["kinds"]["newpkt"]), "Run.EvalFrame")
+for _pid in ("C07", "C11"):
+    PROPS[_pid]["rule"] += " Also: packets built for one identifier and re-identified with SetIdentifier (all format bits of the first one set in a third of the cases)."
+for _pid in ("C12", "C19"):
+    PROPS[_pid]["rule"] += " Also: the client's walk over decodable / undecodable / short packets in any order, the scan called again after a refusal."
+    if "Tie/ClientAgree.v" not in PROPS[_pid]["tie_files"]:
+        PROPS[_pid]["tie_files"].append("Tie/ClientAgree.v")
+for _pid in ("C13", "C14"):
+    PROPS[_pid]["rule"] += " Also: the port failing in the very read that brings the (last) acknowledge."
 for _t in ("Tie/ClientAgree.v",):
     if _t not in PROPS["C19"]["tie_files"]:
         PROPS["C19"]["tie_files"].append(_t)
